@@ -7,7 +7,8 @@
 n=${1:-3}; shift
 ids="$@"; [ -z "$ids" ] && ids=$(ls /verif/seeded)
 S=/tmp/sweep; mkdir -p $S /verif/build/sweep
-jobs=(); for id in $ids; do for d in /verif/seeded/$id/m*; do [ -f $d/patch.diff ] && jobs+=("$id/$(basename $d)"); done; done
+# SWEEP_ONLY="m4 m5" restricts the sweep to those change numbers
+jobs=(); for id in $ids; do for d in /verif/seeded/$id/m*; do k=$(basename $d); [ -n "$SWEEP_ONLY" ] && ! echo " $SWEEP_ONLY " | grep -q " $k " && continue; [ -f $d/patch.diff ] && jobs+=("$id/$k"); done; done
 echo "${#jobs[@]} seeded changes, $n lanes"
 lane() {
   i=$1; V=$S/lane$i/verif; R=$S/lane$i/repo
